@@ -1,0 +1,23 @@
+//go:build verif
+// +build verif
+
+package mod_doh
+
+import (
+	"github.com/miekg/dns"
+)
+
+import (
+	"github.com/bfenetworks/bfe/bfe_basic"
+)
+
+// Hooks for the out-of-tree verification harness of property C56 (build tag verif). Add-only.
+
+// VerifMaxPostMsgLength is the POST body limit of requestToMsgPost.
+func VerifMaxPostMsgLength() int64 { return maxPostMsgLength }
+
+// VerifSetClientSubnet exposes setClientSubnet.
+func VerifSetClientSubnet(req *bfe_basic.Request, m *dns.Msg) { setClientSubnet(req, m) }
+
+// VerifUnpackMsg exposes unpackMsg (dns.Msg.Unpack as mod_doh calls it).
+func VerifUnpackMsg(buf []byte) (*dns.Msg, error) { return unpackMsg(buf) }
